@@ -106,7 +106,12 @@ def check_file(job):
 
             msg = _re.sub(r"'[^']*'", "'*'", (e.msg or "").split("(")[0].strip())
             line = (e.text or "").strip()[:160]
-            res["problems"].append(("C02:uncompilable:%s" % msg[:60], "instrumented output does not compile: %s at line %s: %s" % (e.msg, e.lineno, line)))
+            ctx = ""
+            if _re.match(r"case\b", line):
+                ctx = "match_pattern:"          # a pattern of a match statement was rewritten
+            elif _re.search(r"\bfor\s+\(?\s*_rt\._", line):
+                ctx = "comprehension_target:"   # the target of a comprehension / loop was rewritten into a call
+            res["problems"].append(("C02:uncompilable:%s%s" % (ctx, msg[:60]), "instrumented output does not compile: %s at line %s: %s" % (e.msg, e.lineno, line)))
             return res
         except Exception as e:
             res["problems"].append(("C02:uncompilable:%s" % type(e).__name__, repr(e)[:200]))
